@@ -26,7 +26,7 @@ TRUSTED = ["ClientLTS.v is a hand model of AsyncIOClient.connect/_receive_loop/s
            "the code by the traces of this run (real traces are accepted by the model; the theorems quantify over all model traces)",
            "which awaits really suspend, FIFO order of the ready queue, task cancellation: CPython 3.12 asyncio, modelled not verified",
            "tools/vloop.py: virtual-time selector, fake transports, method wrappers, block -> label translation"]
-ASSUMPTIONS = ["close() is called at most once and the application does not cancel connect/send/close tasks",
+ASSUMPTIONS = ["the application does not cancel connect/send/close tasks (close() may be called any number of times)",
                "asyncio schedules every runnable task eventually (fairness)",
                "build_network_map=False (no _seed_network_map task)",
                "a status / receive callback does not swallow CancelledError"]
@@ -132,7 +132,7 @@ def close_specs(ctx):
                 sp["inject"] = {"at": at, "ops": [["close"]]}
                 sp["exc_rot"] = ctx.seed + at
                 inj.append((sp, {"client": c, "cb": cb, "shape": "A/netmap", "at": at, "oracle_only": True}))
-    # oracle-only: close() called a second time while the first is still delivering its CLOSED notification (slow callback)
+    # close() called a second time while the first is still delivering its CLOSED notification (slow callback)
     for c in clients:
         for cb in ("slow", "slowraise"):
             sp0 = _spec(c, cb, "A")
@@ -141,7 +141,15 @@ def close_specs(ctx):
                 sp = dict(sp0)
                 sp["inject"] = {"at": at, "ops": [["close"], ["close2", 0.05]]}
                 sp["exc_rot"] = ctx.seed + at
-                inj.append((sp, {"client": c, "cb": cb, "shape": "A/close-twice", "at": at, "oracle_only": True}))
+                inj.append((sp, {"client": c, "cb": cb, "shape": "A/close-twice", "at": at}))   # modelled (AClose2*) AND judged
+        # ... and with a callback that returns at once: the second call in the same instant / while the first one sleeps
+        for delay in (0.0, 0.015):
+            sp0 = _spec(c, "ret", "A")
+            for at in list(range(2, max(2, min(40, npos_of(c, "ret") - 4)), 4 if not thorough else 1)):
+                sp = dict(sp0)
+                sp["inject"] = {"at": at, "ops": [["close"], ["close2", delay]]}
+                sp["exc_rot"] = ctx.seed + at
+                inj.append((sp, {"client": c, "cb": "ret", "shape": "A/close-twice+%g" % delay, "at": at}))
     iobs = vloop.run_batch([dict(sp) for sp, _ in inj], _repo(), wall=6, procs=3)
     for (sp, m), o in zip(inj, iobs):
         m["obs"] = o
